@@ -221,6 +221,23 @@ def cases(tier, seed):
                                     c["padding"] = padding
                                 out.append(c)
     out += _ill_cases(tier)
+    # physical units: a global factor per field, far below float32 eps / far above 1/eps (mol/mol, kg m-2 s-1, Pa); every
+    # clause is relative to the field, so nothing may change
+    units = [[1e-10, 1.0], [1.0, 1e-10], [1e-9, 1e9]] if tier == "quick" else [[1e-10, 1.0], [1.0, 1e-10], [1e-9, 1e9], [1e-12, 1e-12], [1e8, 1e8]]
+    for (prefix, cplx, padding) in ([("", False, None), ("Hilbert", False, None)] if tier == "quick" else families[:3]):
+        kinds = [(k, list(a)) for k, a in NAMED.items()] + [("CPCCA", [1.0, 0.5]), ("CPCCA", [0.5, 1.0])]
+        for kind, alpha in kinds:
+            for pca in ("off", "all"):
+                fam = prefix or "real"
+                if not _admissible(9, 4, 3, alpha, pca, fam, padding):
+                    continue
+                for k in ((3,) if tier == "quick" else (1, 2, 3)):
+                    for unit in units:
+                        c = dict(model=prefix + kind, kind=kind, family=fam, cplx=cplx, pair="9x4|9x3", shape=[9, 4, 3], spec="geometric", alpha=alpha,
+                                 pca=pca, n_modes=k, solver="full", labels="same", unit=unit)
+                        if prefix == "Hilbert":
+                            c["padding"] = padding
+                        out.append(c)
     out.sort(key=lambda c: (c["family"] != "real", c["kind"] != "MCA", c["shape"][0] != 9, c["pca"] != "off", c["labels"] != "same", c.get("illscale") is not None))
     return out
 
@@ -328,6 +345,8 @@ def build_input(case, seed):
     if ill:
         M = X if ill[0] == "X" else Y
         M[:, M.shape[1] - int(ill[2]):] *= 10.0 ** (-int(ill[1]))  # mean row included: it is the variable that is small
+    if case.get("unit"):
+        X, Y = X * case["unit"][0], Y * case["unit"][1]
     t = np.arange(n) * 2 + 1
     dx = xr.DataArray(X, dims=("time", "x"), coords={"time": t, "x": np.arange(p1) * 10}, name="left")
     dy = xr.DataArray(Y, dims=("time", "y"), coords={"time": y_labels(t, case.get("labels", "same")), "y": np.arange(p2) * 5 + 100}, name="right")
